@@ -67,3 +67,15 @@ Theorem C16_step_declared_status_is_persisted : forall c inst u st b n e r seed 
                       (if mark then mark_obj (r_obj r) st else r_obj r) (r_created r) (w_now (o_w s)) (r_ver r) (r_reason r) z)).
 Proof. exact step_declared_status_persisted. Qed.
 Print Assumptions C16_step_declared_status_is_persisted.
+
+(* the ONLY IF direction for a failing step function, for EVERY state in which the run handed to it carries its stored status
+   (step.go stepConsumer's error branch: the invocation, then maybePause): no run's stored status changes and no Store at a
+   status other than the stored one is made, whatever status the function returned alongside its error (proofs/TimeoutRetry.v) *)
+From WF Require Import proofs.TimeoutRetry.
+Theorem C16_failing_step_changes_no_status : forall c inst u st n b view s,
+  st_of (o_w s) (r_run view) = Some (r_status view) ->
+  tr_step s (snd ((out <- invoke c (UFStep st) b st view ;;
+                   let '(obj', oc, ctl) := out in
+                   match oc with inr oe => paused <- maybe_pause c inst n oe u ctl ;; if (paused : bool) then ret tt else fail EGen | inl _ => ret tt end) s)).
+Proof. exact failing_step_function_changes_no_status. Qed.
+Print Assumptions C16_failing_step_changes_no_status.
